@@ -2,8 +2,9 @@
 to every source pattern of engine.pat, so that rules see (and are written against) one spelling:
 
   N1  x = x op e                      ->  x op= e
-  N2  c < x  (constant on the left)   ->  x > c ;   a < b / a <= b (no constant operand)  ->  b > a / b >= a
-      (== / != between two non-constant operands keep their order; engine.pat tries both orientations when matching them)
+  N2  c < x  (constant on the left)   ->  x > c ;   a < b / a <= b (no constant operand)  ->  b > a / b >= a ;
+      a == b / a != b (no constant operand): `self...` operand first, otherwise text order;
+      a (dotted) ALL_CAPS name counts as a constant
   N3  if not C: A else: B             ->  if C: B else: A       (else-arm present and not an elif chain)
 
 Each rewrite preserves behaviour for the builtin types the package compares and accumulates (ints, bytes, str, names, lists).
@@ -12,12 +13,34 @@ engine.cfg.canonical_atom applies the same N2 convention to comparison atoms (al
 from __future__ import annotations
 
 import ast
+import re
 
 _FLIP = {ast.Lt: ast.Gt, ast.Gt: ast.Lt, ast.LtE: ast.GtE, ast.GtE: ast.LtE, ast.Eq: ast.Eq, ast.NotEq: ast.NotEq}
 
 
+_CONST_LIKE = re.compile(r"^(?:[A-Za-z_]\w*\.)*[A-Z][A-Z0-9_]*$")
+
+
+def is_const_text(t: str) -> bool:
+    """literal, or a constant-like name: a (dotted) name whose last component is ALL_CAPS (enum members, module constants)"""
+    if _CONST_LIKE.match(t):
+        return True
+    try:
+        ast.literal_eval(t)
+        return True
+    except Exception:
+        return False
+
+
 def _is_const(e) -> bool:
-    return isinstance(e, ast.Constant) or (isinstance(e, ast.UnaryOp) and isinstance(e.op, ast.USub) and isinstance(e.operand, ast.Constant))
+    if isinstance(e, ast.Constant) or (isinstance(e, ast.UnaryOp) and isinstance(e.op, ast.USub) and isinstance(e.operand, ast.Constant)):
+        return True
+    return isinstance(e, (ast.Name, ast.Attribute)) and bool(_CONST_LIKE.match(ast.unparse(e)))
+
+
+def eq_rank(t: str) -> tuple:
+    """order of the operands of == / != between two non-constants: receiver state first, then everything else, by text"""
+    return (0 if t == "self" or t.startswith("self.") else 1, t)
 
 
 def normalise(tree: ast.AST) -> ast.AST:
@@ -26,13 +49,15 @@ def normalise(tree: ast.AST) -> ast.AST:
             l, r = n.left, n.comparators[0]
             if (_is_const(l) and not _is_const(r)) or (not _is_const(l) and not _is_const(r) and isinstance(n.ops[0], (ast.Lt, ast.LtE))):
                 n.left, n.comparators, n.ops = r, [l], [_FLIP[type(n.ops[0])]()]
+            elif isinstance(n.ops[0], (ast.Eq, ast.NotEq)) and not _is_const(l) and not _is_const(r) and eq_rank(ast.unparse(l)) > eq_rank(ast.unparse(r)):
+                n.left, n.comparators = r, [l]  # == / != between two non-constants: operands in text order
 
         elif isinstance(n, ast.If) and isinstance(n.test, ast.UnaryOp) and isinstance(n.test.op, ast.Not) and n.orelse \
                 and not (len(n.orelse) == 1 and isinstance(n.orelse[0], ast.If)) and not _only_ellipsis(n.orelse):
             n.test = n.test.operand
             n.body, n.orelse = n.orelse, n.body
         elif isinstance(n, ast.Assign) and len(n.targets) == 1 and isinstance(n.targets[0], (ast.Name, ast.Attribute)) and isinstance(n.value, ast.BinOp) \
-                and isinstance(n.value.left, type(n.targets[0])) and ast.dump(n.value.left).replace("Load()", "Store()") == ast.dump(n.targets[0]):
+                and isinstance(n.value.left, type(n.targets[0])) and ast.unparse(n.value.left) == ast.unparse(n.targets[0]):
             tgt, op, val = n.targets[0], n.value.op, n.value.right
             ln, co, eln, eco = getattr(n, "lineno", 0), getattr(n, "col_offset", 0), getattr(n, "end_lineno", None), getattr(n, "end_col_offset", None)
             n.__class__ = ast.AugAssign
